@@ -252,19 +252,29 @@ class Driver:
                                   stdout=subprocess.PIPE, bufsize=1 << 20)
 
     def batch(self, reqs):
+        """send all requests, read all answers; the writer runs in a thread so that
+        neither pipe can fill up while the other side is blocked"""
+        import threading
+        if not reqs:
+            return []
         data = ''.join(json.dumps(q, separators=(',', ':')) + '\n' for q in reqs).encode()
-        # write in a thread-free way: chunk to avoid pipe deadlock
+        err = []
+
+        def writer():
+            try:
+                self.p.stdin.write(data)
+                self.p.stdin.flush()
+            except Exception as e:   # noqa
+                err.append(e)
+        th = threading.Thread(target=writer, daemon=True)
+        th.start()
         out = []
-        CH = 200
-        for i in range(0, len(reqs), CH):
-            part = ''.join(json.dumps(q, separators=(',', ':')) + '\n' for q in reqs[i:i + CH]).encode()
-            self.p.stdin.write(part)
-            self.p.stdin.flush()
-            for _ in range(len(reqs[i:i + CH])):
-                line = self.p.stdout.readline()
-                if not line:
-                    raise RuntimeError('driver died')
-                out.append(json.loads(line))
+        for _ in range(len(reqs)):
+            line = self.p.stdout.readline()
+            if not line:
+                raise RuntimeError('driver died (%s)' % (err[:1],))
+            out.append(json.loads(line))
+        th.join()
         return out
 
     def one(self, req):
@@ -334,6 +344,11 @@ def call(f, *a, **k):
 
 
 # --------------------------------------------------------------------------- parallel map
+def _worker_init():
+    global _DRV
+    _DRV = None      # never share the parent's driver pipes
+
+
 def _run_chunk(args):
     modname, fname, chunk, extra = args
     mod = __import__(modname)
@@ -354,7 +369,7 @@ def pmap(modname, fname, items, extra=None, chunk=400, procs=None):
             out += _run_chunk((modname, fname, c, extra))
         return out
     ctx = mp.get_context('fork')
-    with ctx.Pool(min(procs, len(chunks))) as pool:
+    with ctx.Pool(min(procs, len(chunks)), initializer=_worker_init) as pool:
         res = pool.map(_run_chunk, [(modname, fname, c, extra) for c in chunks])
     out = []
     for r in res:
